@@ -1041,3 +1041,27 @@ def m_vec_into_iter(ex, st, callee, args, dty, m):
     if isinstance(v, Seq):
         return Agg("struct", "SeqIter", [Ref(Cell(v), ()), u64(0)])
     return NotImplemented
+
+
+@model(r"(?:std|core)::slice::<impl \[.*\]>::contains$|Vec::<.*>::contains$")
+def m_slice_contains(ex, st, callee, args, dty, m):
+    seq = deref(ex, args[0])
+    if not isinstance(seq, Seq):
+        return NotImplemented
+    x = args[1]
+    conds = [value_eq(ex, it, x) for it in seq.items]
+    return z3.simplify(z3.Or(*conds)) if conds else z3.BoolVal(False)
+
+
+@model(r"(?:std|core)::slice::<impl \[.*\]>::binary_search$")
+def m_binary_search(ex, st, callee, args, dty, m):
+    """specified only for sorted slices; the model gives the specified answer when the slice has
+    at most one element (trivially sorted) and an arbitrary answer otherwise"""
+    seq = deref(ex, args[0])
+    if isinstance(seq, Seq) and len(seq.items) <= 1:
+        x = args[1]
+        if not seq.items:
+            return mk_err(dty, u64(0))
+        eq = value_eq(ex, seq.items[0], x)
+        return ("__fork__", [(eq, mk_ok(dty, u64(0))), (z3.Not(eq), mk_err(dty, ex.fresh("bs_pos", "usize")))])
+    return NotImplemented
